@@ -74,7 +74,7 @@ ENERGY = bytes([0xC1, 0x21, 0x01, 0x44, 0, 0, 0x12, 0x34, 0, 0, 0, 0, 0, 0, 0, 0
 HUMID = bytes([0xC1, 0x21, 0x01, 0x45, 47, 0, 0, 0])
 
 
-HISTORIES = ["plain", "idle_close", "lifetime", "reapply_after_other", "reapply_after_other_refreshed", "reapply_same", "rejected_reauth", "reauth_with_queued_report"]
+HISTORIES = ["plain", "idle_close", "lifetime", "reapply_after_other", "reapply_after_other_refreshed", "reapply_same", "rejected_reauth", "reauth_with_queued_report", "two_lost", "caps_learned"]
 
 
 def scenario(ctx, ver, want, *, extras, cutmode, seed, stale_first, v2_split, rich=False, history="plain"):
@@ -187,8 +187,22 @@ def scenario(ctx, ver, want, *, extras, cutmode, seed, stale_first, v2_split, ri
                     tr.feed(landev.v3_enc_packet(s["key"], landev.v2_wrap(ac.stale, devid), s["ctr"]))
                 else:
                     tr.feed(landev.v2_wrap(ac.stale, devid))
+            if history == "caps_learned" and rich:         # (a unit without custom fan speeds has raw speeds coerced: finding D12's mechanism, not this check's subject)
+                await a.get_capabilities()          # the unit advertises little (no display control among it): every setting is sent all the same
+                await asyncio.sleep(0.5)
             apply_state(AC, a, want, rng)
             ac.plan = extras
+            if history == "two_lost":
+                # the unit misses the first two copies of the next request and answers the third
+                lost = {"n": 2}
+                orig_on_bytes = net.on_bytes
+
+                def lossy(tr, data, lost=lost):
+                    if lost["n"] > 0:
+                        lost["n"] -= 1                  # this copy never reaches the unit
+                        return
+                    orig_on_bytes(tr, data)
+                net.on_bytes = lossy
             if ac.stale is None:
                 ac.stale = ac.state_frame(ftype=rng.choice([2, 3, 5]))      # the state before the apply, as the appliance would have reported it
             n0 = len(ac.rx_frames)
